@@ -25,10 +25,37 @@ BUDGET = {"quick": (16, 30), "thorough": (16, 1200)}
 
 
 @st.composite
+def _two_rings(draw):
+    """two cyclic molecule types whose residues differ strongly in size (each type has its own step length,
+    hence its own bound on the closing distance); the one with the large residues comes first or second"""
+    big = {"resname": "RA", "atoms": [{"name": f"a{i + 1}", "type": "TA", "mass": 72.0} for i in range(3)],
+           "bonds": [[0, 1, 0.35], [1, 2, 0.35]], "vs": None}
+    small = {"resname": "RB", "atoms": [{"name": "b1", "type": "TB", "mass": 36.0}], "bonds": [], "vs": None}
+    moltypes = []
+    for name, res in (("MA", big), ("MB", small)):
+        n = draw(st.integers(5, 10))
+        moltypes.append({"name": name, "residues": [res] * n, "shape": "ring", "nrexcl": 1,
+                         "res_edges": [[i, i + 1] for i in range(n - 1)] + [[n - 1, 0]]})
+    order = ["MA", "MB"] if draw(st.integers(0, 2)) > 0 else ["MB", "MA"]
+    molecules = [[order[0], 1], [order[1], draw(st.integers(1, 2))]]
+    tol = draw(st.sampled_from([0.0, 0.05, 0.2]))
+    spec = {"rng": draw(st.integers(0, 2**31 - 1)), "comb": 2,
+            "atomtypes": [{"name": "TA", "mass": 72.0, "sigma": 0.6, "eps": 2.0}, {"name": "TB", "mass": 36.0, "sigma": 0.2, "eps": 2.0}],
+            "moltypes": moltypes, "molecules": molecules, "coords": None, "build": None}
+    edge = gc.dilute_box(spec) + 1.0
+    spec["opts"] = {"box": [edge, edge, edge], "cycles": list(draw(st.permutations(["MA", "MB"]))), "cycle_tol": tol}
+    spec["restraints"] = [{"kind": "cycle", "mol": "MA", "tol": tol}, {"kind": "cycle", "mol": "MB", "tol": tol}]
+    spec["kind"] = "cycle"
+    return spec
+
+
+@st.composite
 def _strategy(draw):
-    kind = draw(st.sampled_from(["geom", "geom", "cone", "dist", "dist2", "cycle", "persist"]))
+    kind = draw(st.sampled_from(["geom", "geom", "cone", "dist", "dist2", "cycle", "persist", "two_rings"]))
+    if kind == "two_rings":
+        return draw(_two_rings())
     if kind == "cycle":
-        spec = draw(gc.system(max_moltypes=1, max_res=12, min_res=4, shapes=("ring",), max_total_mol=3,
+        spec = draw(gc.system(max_moltypes=2, max_res=12, min_res=4, shapes=("ring",), max_total_mol=3,
                               allow_vs=False))
     elif kind in ("dist", "persist", "cone"):
         spec = draw(gc.system(max_moltypes=2, max_res=10, min_res=4, shapes=("linear",), max_total_mol=3,
@@ -151,8 +178,16 @@ def _strategy(draw):
         build += ["[ persistence_length ]", f"WCM {lp!r} 0 {nres - 1}"]
         restraints.append({"kind": "persist", "mol": name, "lo": lo, "hi": hi, "a": 0, "b": nres - 1, "lp": lp})
     else:
-        opts["cycles"] = [name]
+        # every ring-shaped molecule type of the system may be declared cyclic (types with other residue
+        # sizes have other step lengths and therefore other bounds)
+        ring_names = list(draw(st.permutations(sorted(set(mol_names)))))
+        if draw(st.integers(0, 2)) == 0:
+            ring_names = [name]
+        opts["cycles"] = ring_names
         opts["cycle_tol"] = draw(st.sampled_from([0.0, 0.2, 0.5]))
+        for rn in ring_names:
+            if rn != name:
+                restraints.append({"kind": "cycle", "mol": rn, "tol": opts["cycle_tol"]})
         if draw(st.booleans()):
             # one copy of the ring is grown from another residue than the others (its closing edge differs)
             copy_idx = draw(st.sampled_from(idxs))
